@@ -74,6 +74,9 @@ const OPS = {
   exclude: { arity: 2, loose: true, src: (s) => `Exclude<${s[0]} | ${s[1]}, ${s[1]}>`, ctors: (c) => c[0].concat(c[1]), samples: (x) => x[0] },
   extract: { arity: 2, loose: true, src: (s) => `Extract<${s[0]} | ${s[1]}, ${s[0]}>`, ctors: (c) => c[0].concat(c[1]), samples: (x) => x[0] },
 };
+const SCOPES = ['fnDecl', 'arrow', 'fnExpr', 'method', 'iife', 'classMethod'];
+// other uses of a shared alias T1 (some cannot be resolved; what they yield is not judged)
+const PROBES = { none: null, same: 'T1', length: "T1['length']", number: 'T1[number]', key: "T1['k']", missing: "T1['missing']", partialKey: "Partial<T1>['k']", arrayOf: 'T1[]', union: 'T1 | T0', keyofT: 'keyof T1' };
 const UNARY = Object.keys(OPS).filter((k) => OPS[k].arity === 1);
 const BINARY = Object.keys(OPS).filter((k) => OPS[k].arity === 2);
 
@@ -99,10 +102,27 @@ function renderScoped(c) {
   const st = { n: 0, decls: [], pre: new Set() };
   const a = build({ a: c.x }, st), b = build({ a: c.y }, st);
   const outer = `type Value = ${a.src};\nexport const A = defineComponent((props: { p: Value }) => () => null);`;
-  const inner = `function make() {\n  type Value = ${b.src};\n  return defineComponent((props: { p: Value }) => () => null);\n}\nexport const B = make();`;
+  const body = `type Value = ${b.src};\n  return defineComponent((props: { p: Value }) => () => null);`;
+  const inner = ({
+    fnDecl: `function make() {\n  ${body}\n}\nexport const B = make();`,
+    arrow: `const make = () => {\n  ${body}\n};\nexport const B = make();`,
+    fnExpr: `const make = function () {\n  ${body}\n};\nexport const B = make();`,
+    method: `const holder = { make() {\n  ${body}\n} };\nexport const B = holder.make();`,
+    iife: `export const B = (() => {\n  ${body}\n})();`,
+    classMethod: `class Maker { make() {\n  ${body}\n} }\nexport const B = new Maker().make();`,
+  })[c.scope || 'fnDecl'];
   return { src: `${R.PRELUDE}${[...st.pre].join('\n')}\n${c.innerFirst ? inner + '\n' + outer : outer + '\n' + inner}\n`, parts: c.innerFirst ? [b, a] : [a, b] };
 }
-function requests(c) { if (c.sp === 'S') return [{ src: renderScoped(c).src, ts: true, want: ['eval'], opts: JSON.stringify({ resolveType: true }) }]; return [{ src: render(c).src, ts: true, want: ['eval'], opts: JSON.stringify({ resolveType: true }) }]; }
+function renderShared(c) {
+  const st = { n: 0, decls: [], pre: new Set() };
+  const a = build({ a: c.x }, st);
+  const q = PROBES[c.probe];
+  const members = q === null ? 'p: T1' : c.first ? `q: ${q}; p: T1` : `p: T1; q: ${q}`;
+  const one = `export const A = defineComponent((props: { ${members} }) => () => null);`;
+  const two = c.second ? '\nexport const B = defineComponent((props: { p: T1 }) => () => null);' : '';
+  return { src: `${R.PRELUDE}${[...st.pre].join('\n')}\ntype T0 = ${a.src};\ntype T1 = T0;\n${one}${two}\n`, b: a };
+}
+function requests(c) { if (c.sp === 'M') return [{ src: renderShared(c).src, ts: true, want: ['eval'], opts: JSON.stringify({ resolveType: true }) }]; if (c.sp === 'S') return [{ src: renderScoped(c).src, ts: true, want: ['eval'], opts: JSON.stringify({ resolveType: true }) }]; return [{ src: render(c).src, ts: true, want: ['eval'], opts: JSON.stringify({ resolveType: true }) }]; }
 
 function judge(c, resps) {
   const r = resps[0];
@@ -110,6 +130,17 @@ function judge(c, resps) {
   if (r.panic || r.died || r.hang || !r.eval_js) return { skip: true };
   const res = R.run(r.eval_js);
   if (res.load) return { viol: [{ clause: 'load', diff: 'exception', msg: res.load }], obs: 'load' };
+  if (c.sp === 'M') {
+    const { b } = renderShared(c);
+    const calls = res.calls.filter((x) => x.who === 'vue');
+    const all = [];
+    const obsM = [];
+    calls.forEach((call, i) => { const j = judgeOne(b, call); obsM.push(j.obs); for (const v of j.viol) all.push(Object.assign({}, v, { clause: 'shared:' + v.clause })); });
+    if (calls.length !== (c.second ? 2 : 1)) all.push({ clause: 'shared:type', diff: 'components:missing', msg: 'not every defineComponent call was observed' });
+    const uniq = new Map();
+    for (const v of all) if (!uniq.has(v.clause + v.diff)) uniq.set(v.clause + v.diff, v);
+    return { viol: [...uniq.values()], obs: stable(obsM), clauses: ['shared:type'] };
+  }
   if (c.sp === 'S') {
     const { parts } = renderScoped(c);
     const calls = res.calls.filter((x) => x.who === 'vue');
@@ -169,7 +200,8 @@ function spaces(tier) {
     for (const op of BINARY) for (const x of pool) for (const y of pool2) if (okArgs(op, [x, y])) yield { op, args: [x, y] };
   }
   return [
-    { name: 'S:same-named-aliases-in-two-scopes', bounds: { note: 'module-level `type Value = X` and function-local `type Value = Y`, one component each, both orders', atoms: 'all × core' }, *gen() { for (const x of ATOM_KEYS) for (const y of CORE_ATOMS) for (const innerFirst of [false, true]) if (x !== y && x !== 'bigLit' && y !== 'bigLit') yield { sp: 'S', x, y, innerFirst }; } },
+    { name: 'S:same-named-aliases-in-two-scopes', bounds: { note: 'module-level `type Value = X` and function-local `type Value = Y`, one component each, both orders', atoms: 'all × core' }, *gen() { for (const scope of SCOPES) for (const x of (scope === 'fnDecl' ? ATOM_KEYS : CORE_ATOMS)) for (const y of CORE_ATOMS) for (const innerFirst of [false, true]) if (x !== y && x !== 'bigLit' && y !== 'bigLit') yield { sp: 'S', x, y, innerFirst, scope }; } },
+    { name: 'M:shared-alias-used-twice', bounds: { atoms: 'core', probes: Object.keys(PROBES), orders: ['probe first', 'probe last'], second_component: [false, true], note: 'an alias chain `type T0 = X; type T1 = T0` used by prop p, next to another use of T1 that may not be resolvable (indexed access); the second use must not change what p gets' }, *gen() { for (const x of CORE_ATOMS) if (x !== 'bigLit') for (const probe of Object.keys(PROBES)) for (const first of [true, false]) for (const second of [false, true]) yield { sp: 'M', x, probe, first, second }; } },
     { name: 'R:atoms', bounds: { atoms: ATOM_KEYS }, *gen() { for (const t of atoms) yield { t }; } },
     { name: 'R:depth-1', bounds: { unary: UNARY, binary: BINARY, atoms: 'all × all' }, *gen() { for (const t of depth1(atoms, atoms)) yield { t }; } },
     {
@@ -185,7 +217,8 @@ function spaces(tier) {
 }
 
 function* shrink(c) {
-  if (c.sp === 'S') { if (c.innerFirst) yield Object.assign({}, c, { innerFirst: false }); if (c.x !== 'string' && c.y !== 'string') yield Object.assign({}, c, { x: 'string' }); if (c.y !== 'number' && c.x !== 'number') yield Object.assign({}, c, { y: 'number' }); return; }
+  if (c.sp === 'M') { if (c.second) yield Object.assign({}, c, { second: false }); if (c.probe !== 'none') yield Object.assign({}, c, { probe: 'none' }); if (!c.first) yield Object.assign({}, c, { first: true }); if (c.x !== 'string') yield Object.assign({}, c, { x: 'string' }); return; }
+  if (c.sp === 'S') { if (c.scope && c.scope !== 'fnDecl') yield Object.assign({}, c, { scope: 'fnDecl' }); if (c.innerFirst) yield Object.assign({}, c, { innerFirst: false }); if (c.x !== 'string' && c.y !== 'string') yield Object.assign({}, c, { x: 'string' }); if (c.y !== 'number' && c.x !== 'number') yield Object.assign({}, c, { y: 'number' }); return; }
   const t = c.t;
   if (t.a) { if (t.a !== 'string') return; return; }
   for (const a of t.args) yield { t: a };
@@ -203,6 +236,6 @@ module.exports = {
   rule: 'BFS over type terms: every atom of the statement\'s table (keywords, literal types incl. bigint and template literals, function/constructor types, arrays/tuples, object-like types, built-in classes, any/unknown, null, utility wrappers), every depth-1 term (alias, alias chain, parentheses, NonNullable, | null, element access of arrays/tuples/objects/interfaces, union in both orders, intersection, Exclude/Extract) over all atoms, and depth-2 terms over a core; each term is the declared type of a prop, transformed by the real visitor with resolveType on and executed; the emitted runtime type, normalised to constructor names, must equal the reference constructor set (no check for any/unknown, Boolean/String in declaration order), and every sample inhabitant of the term must pass Vue\'s assertType algorithm. Distinct = distinct emitted type lists.',
   assumptions: ['Vue assertType / validateProp transcribed in the mock runtime', 'sample inhabitants per atom chosen by hand', 'SWC TypeScript parser; TS eraser of the driver'],
   spaces, requests, judge, shrink,
-  caseKey: (c) => (c.sp === 'S' ? `S:outer Value=${c.x}, inner Value=${c.y}${c.innerFirst ? ' (inner first)' : ''}` : termKey(c.t)),
-  depth: (c) => { if (c.sp === 'S') return 2; const d = (t) => (t.a ? 0 : 1 + Math.max(...t.args.map(d))); return d(c.t); },
+  caseKey: (c) => (c.sp === 'M' ? `M:T1=T0=${c.x}; ${c.first ? 'q: ' + PROBES[c.probe] + '; p: T1' : 'p: T1; q: ' + PROBES[c.probe]}${c.second ? ' + second component' : ''}` : c.sp === 'S' ? `S:outer Value=${c.x}, inner Value=${c.y}${c.innerFirst ? ' (inner first)' : ''}${c.scope && c.scope !== 'fnDecl' ? ' in ' + c.scope : ''}` : termKey(c.t)),
+  depth: (c) => { if (c.sp === 'S' || c.sp === 'M') return 2; const d = (t) => (t.a ? 0 : 1 + Math.max(...t.args.map(d))); return d(c.t); },
 };
